@@ -151,7 +151,8 @@ def sub_cases(draw):
                 # every presentation type of the version - also the two node types presented on an ordinary child
                 # (their payload has to be a version string)
                 sub = draw(st.one_of(st.integers(0, T.MAX_SUB[version][T.PRESENTATION]), st.sampled_from([17, 18])))
-                lines.append(f"{nid};{cid};0;0;{sub};{'2.0' if sub in (17, 18) else 'd'}")
+                # delivered by the broker with QoS 0, 1 or 2 (what arrives with QoS > 0 is an ack = 1 message)
+                lines.append(f"{nid};{cid};0;{draw(st.sampled_from([0, 0, 1]))};{sub};{'2.0' if sub in (17, 18) else 'd'}")
         return lines
 
     return {
@@ -168,6 +169,7 @@ def sub_cases(draw):
         "sub_raises": draw(st.booleans()),
         "exc_kind": draw(st.sampled_from(EXC_KINDS)),
         "pub_raises": draw(st.booleans()),
+        "qos2": draw(st.booleans()),
     }
 
 
@@ -329,7 +331,7 @@ def check_subs(case, stats=None):
                 gw.start_persistence()
             # traffic handled before start() (e.g. a node presentation delivered by an early recv)
             for line in case.get("prestart", []):
-                gw.tasks.transport.recv(*_to_mqtt(case["in_prefix"], line))
+                gw.tasks.transport.recv(*_to_mqtt(case["in_prefix"], line, case.get("qos2", False)))
                 while gw.tasks.queue:
                     gw.tasks.transport.send(gw.tasks.run_job())
             gw.start()
@@ -340,7 +342,7 @@ def check_subs(case, stats=None):
                 restored_children.add((nid, cid))
         for line in case["live"]:
             try:
-                gw.tasks.transport.recv(*_to_mqtt(case["in_prefix"], line))
+                gw.tasks.transport.recv(*_to_mqtt(case["in_prefix"], line, case.get("qos2", False)))
                 while gw.tasks.queue:
                     gw.tasks.transport.send(gw.tasks.run_job())
             except Exception as exc:  # pylint: disable=broad-except
@@ -391,9 +393,9 @@ class _NoThread:
         return None
 
 
-def _to_mqtt(in_prefix, line):
+def _to_mqtt(in_prefix, line, qos2=False):
     f = codec.decode(line)
-    return in_prefix + "/" + "/".join(str(x) for x in f[:5]), f[5], f[3]
+    return in_prefix + "/" + "/".join(str(x) for x in f[:5]), f[5], (2 if qos2 and f[3] else f[3])
 
 
 def check_case(case, stats=None):
